@@ -98,6 +98,99 @@ Section C04.
   Proof. intros HR. exact (effective_pgf_cloud_defect c HR va m T1 T2 T q qc qi x k). Qed.
 End C04.
 
+(** *** the modal layer: explicit_terms + implicit_terms over abstract linear
+    horizontal operators (to_nodal, to_modal, div_cos_lat, curl_cos_lat,
+    laplacian, clip_wavenumbers), with the exactness facts about the grid as
+    named hypotheses (numerically re-checked per explored grid by the plugin). *)
+Section C04_modal.
+  Context {F : Type} {o : Ops F} {Fc : FieldC o}.
+  Hypothesis two_nz : two <> 0.
+  Hypothesis feqb_sound : forall x y : F, feqb x y = true -> x = y.
+  Variables W P : Type.
+  Variable toN : (W -> F) -> P -> F.
+  Variable toM : (P -> F) -> W -> F.
+  Variable divc curlc : (W -> F) -> (W -> F) -> W -> F.
+  Variable lap clip : (W -> F) -> W -> F.
+  Hypothesis toM_lin : Thm.PrimEq.linear toM.
+  Hypothesis divc_lin : Thm.PrimEq.linear2 divc.
+  Hypothesis curlc_lin : Thm.PrimEq.linear2 curlc.
+  Hypothesis lap_lin : Thm.PrimEq.linear lap.
+  Hypothesis clip_lin : Thm.PrimEq.linear clip.
+  Variable c : @PEcfg F.
+  Hypothesis th2_nz : forall k, (S k < cK c)%nat -> thickness (cb c) k + thickness (cb c) (S k) <> 0.
+  Variable grav : F.
+  (** the state: nodal columns, absolute nodal temperature, modal divergence, modal
+      absolute temperature, modal lnps, modal coefficients of the constant one, orography *)
+  Variable X : P -> @NCol F.
+  Variable T : nat -> P -> F.
+  Variable dv Tm : nat -> W -> F.
+  Variable lnps onem orog : W -> F.
+  Hypothesis div_nodal : forall p k, n_div (X p) k = toN (dv k) p.
+  (** admissible state: divergence survives to_nodal -> to_modal -> clip; the velocity has that divergence *)
+  Hypothesis H_roundtrip : forall s w, clip (toM (toN (dv s))) w = dv s w.
+  Hypothesis H_div_vel : forall r w,
+      clip (divc (toM (fun p => n_u (X p) r * n_sec2 (X p))) (toM (fun p => n_v (X p) r * n_sec2 (X p)))) w
+      = clip (toM (fun p => n_div (X p) r)) w.
+  (** div(sec2 grad lnps) = laplacian lnps, curl(sec2 grad lnps) = 0, laplacian(const) = 0 *)
+  Hypothesis H_div_grad : forall w,
+      clip (divc (toM (fun p => n_gx (X p) * n_sec2 (X p))) (toM (fun p => n_gy (X p) * n_sec2 (X p)))) w = lap lnps w.
+  Hypothesis H_curl_grad : forall w,
+      clip (curlc (toM (fun p => n_gx (X p) * n_sec2 (X p))) (toM (fun p => n_gy (X p) * n_sec2 (X p)))) w = 0.
+  Hypothesis lap_const : forall w, lap onem w = 0.
+
+  (** a column operator commutes with a linear horizontal operator acting level by level *)
+  Theorem C04_column_commutes {A B} (L : (A -> F) -> B -> F) (HL : Thm.PrimEq.linear L)
+          (K : nat) (M : Mat) (xs : nat -> A -> F) (r : nat) (b : B) :
+    L (fun a => matvec K M (fun s => xs s a) r) b = matvec K M (fun s => L (xs s) b) r.
+  Proof. exact (column_commutes L HL K M xs r b). Qed.
+
+  (** modal temperature tendency, explicit (clipped) + implicit, every coefficient *)
+  Theorem C04_temperature_modal_invariance (T1 T2 : nat -> F) r w :
+    (r < cK c)%nat ->
+    temp_tendency_explicit W P toM divc clip (with_tref c T1) (Xs P X T T1) r w
+    + temp_tendency_implicit W (with_tref c T1) dv r w
+    = temp_tendency_explicit W P toM divc clip (with_tref c T2) (Xs P X T T2) r w
+      + temp_tendency_implicit W (with_tref c T2) dv r w.
+  Proof.
+    intros Hr.
+    rewrite !(temperature_modal_closed two_nz feqb_sound W P toN toM divc clip toM_lin divc_lin clip_lin c th2_nz
+                X T dv div_nodal H_roundtrip H_div_vel _ r w Hr).
+    reflexivity.
+  Qed.
+
+  (** modal divergence tendency (dry / with-time classes, any orography) *)
+  Theorem C04_divergence_invariance (T1 T2 : nat -> F) r w :
+    div_tendency_explicit W P toM divc lap clip (with_tref c T1) grav (Xs P X T T1)
+                          (fun p => rt_dry (with_tref c T1) (Xs P X T T1 p)) orog (fun _ => 0) r w
+    + div_tendency_implicit W lap (with_tref c T1) (Tms W Tm onem T1) lnps r w
+    = div_tendency_explicit W P toM divc lap clip (with_tref c T2) grav (Xs P X T T2)
+                            (fun p => rt_dry (with_tref c T2) (Xs P X T T2 p)) orog (fun _ => 0) r w
+      + div_tendency_implicit W lap (with_tref c T2) (Tms W Tm onem T2) lnps r w.
+  Proof.
+    rewrite !(divergence_modal_closed W P toM divc lap clip toM_lin divc_lin lap_lin clip_lin c grav X T Tm
+                lnps onem orog H_div_grad lap_const _ r w).
+    reflexivity.
+  Qed.
+
+  (** modal vorticity tendency (its implicit part is zero) *)
+  Theorem C04_vorticity_invariance (T1 T2 : nat -> F) r w :
+    vort_tendency_explicit W P toM curlc clip (with_tref c T1) (Xs P X T T1)
+                           (fun p => rt_dry (with_tref c T1) (Xs P X T T1 p)) (fun _ => 0) r w
+    = vort_tendency_explicit W P toM curlc clip (with_tref c T2) (Xs P X T T2)
+                             (fun p => rt_dry (with_tref c T2) (Xs P X T T2 p)) (fun _ => 0) r w.
+  Proof.
+    rewrite !(vorticity_modal_closed W P toM curlc clip toM_lin curlc_lin clip_lin c X T H_curl_grad _ r w).
+    reflexivity.
+  Qed.
+  (* Not proved at the modal layer (partial): the moist classes' divergence/vorticity
+     tendencies, i.e. the same statements with rt_moist and the humidity corrections
+     humidity_div_modal / humidity_curl_modal under the additional Leibniz hypotheses
+       clip(div(to_modal(q sec2 grad lnps)) - to_modal(q lap lnps + sec2 grad q . grad lnps)) = 0,
+       clip(curl(to_modal(q sec2 grad lnps)) - to_modal(sec2 (grad q x grad lnps))) = 0.
+     Their nodal core is C04_effective_pgf_invariant; the hypotheses are table obligations
+     H_leibniz / H_leibniz_curl of the plugin and the moist oracles exercise the full statement. *)
+End C04_modal.
+
 (** *** a concrete instance over Qc: uneven 3-layer levels, non-uniform profiles *)
 Definition q3 (l : list Q) : nat -> Qc := fun k => Q2Qc (nth k l 0%Q).
 Definition ex_cfg : @PEcfg Qc :=
@@ -180,6 +273,10 @@ Print Assumptions C04_lnps_invariance.
 Print Assumptions C04_effective_pgf_invariant.
 Print Assumptions C04_effective_pgf_invariant_dry.
 Print Assumptions C04_effective_pgf_cloud_defect.
+Print Assumptions C04_column_commutes.
+Print Assumptions C04_temperature_modal_invariance.
+Print Assumptions C04_divergence_invariance.
+Print Assumptions C04_vorticity_invariance.
 Print Assumptions C04_hyps_satisfiable.
 Print Assumptions C04_tref_split_cloud_refuted.
 Print Assumptions C04_tref_split_invariance_R.
